@@ -404,7 +404,9 @@ def run_shard(spec):
                 elif fv is not None and all(is_optimal_status(s) for s in fs["inner_status"]):
                     fam = oracles.solver_family(rec)
                     held, vio = oracles.TOL[fam]
-                    sc = 1 + abs(fv)
+                    # DESIGN 2.8: the scale of a solve includes the size of its solution (Gram entries of 1e7 next to a value of
+                    # 4e5: two runs of the same data in another order differ by 2 %, Appendix B25), not only the value
+                    sc = max(1 + abs(fv), float(pinfo.get("scale", 1.0)), float(cinfo.get("scale", 1.0)))
                     if abs(fv - out[1]) > vio * sc * 10:
                         V("value_differs_from_fresh_equivalent", "solve #%d returned %.9g, a freshly built equivalent model returns %.9g (edits %s)"
                           % (k_solve, out[1], fv, kinds), solve_index=k_solve, **wit)
